@@ -423,6 +423,10 @@ void build_seed_r3(File &f) {
     MultiTag m2 = b.createMultiTag("m2", "u", b.getDataArray("a4"));
     g1.addMultiTag(m2);
     c.createDataFrame("f1", "t", std::vector<Column>{{"k", "", DataType::Int32}});   // a frame OUTSIDE b1 (C08: foreign frame as dimension)
+    // entities whose NAME has the shape of an id (the last ones of their containers)
+    b.createDataArray("0f1e2d3c-4b5a-4978-8796-a5b4c3d2e1f0", "t", DataType::Double, NDSize({2})).setData(std::vector<double>{1.5, 2.5});
+    b.createDataFrame("1f1e2d3c-4b5a-4978-8796-a5b4c3d2e1f1", "t", std::vector<Column>{{"k", "", DataType::Int32}});
+    b.createTag("2f1e2d3c-4b5a-4978-8796-a5b4c3d2e1f2", "t", {1.0});
     c.createMultiTag("m1", "t", ca);                                                  // and a multi-tag outside b1
 }
 
